@@ -55,17 +55,16 @@ class Ctx:
 
 
 def _pair_state(p):
-    """Everything a ColorPair holds, as plain data ("does not alter the ColorPair")."""
+    """The observable state of a ColorPair ("does not alter the ColorPair"): what its public attributes and
+    properties answer, plus the parsed colour/format its later results are computed from. Private bookkeeping a
+    class may add (a memo attribute, say) is deliberately not part of it: if such state ever changes an answer,
+    the history probes report that as history-dependence."""
     def cs(c):
-        d = dict(vars(c))
-        d.pop("background_context", None)
-        return {k: enc(v) for k, v in sorted(d.items())}
+        return {"original": enc(c.original), "rgb": enc(c.rgb), "error": enc(c.error), "is_valid": c.is_valid, "hex": c.to_hex(),
+                "_rgb": enc(getattr(c, "_rgb", None)), "_format": enc(getattr(c, "_format", None))}
 
-    d = {k: enc(v) for k, v in sorted(vars(p).items()) if k not in ("text", "bg")}
-    d["text"] = cs(p.text)
-    d["bg"] = cs(p.bg)
-    d["text_ctx_is_bg"] = p.text.background_context is p.bg
-    return d
+    return {"text": cs(p.text), "bg": cs(p.bg), "large": enc(p.large), "is_valid": p.is_valid, "errors": enc(p.errors),
+            "is_readable": enc(p.is_readable), "text_is_Color": type(p.text).__name__, "bg_is_Color": type(p.bg).__name__}
 
 
 def run_op(op, ctx=None):
@@ -171,7 +170,8 @@ class Effects:
     """Record everything an operation does to the outside: stream bytes, file-system events
     (audit hook), sandbox snapshot diff.  cwd is <root>/cwd."""
 
-    def __init__(self, root, tty=False, no_color=False, plan=None):
+    def __init__(self, root, tty=False, no_color=False, plan=None, cwd_rel="cwd"):
+        self.cwd_rel = cwd_rel
         self.root = os.path.realpath(root)
         self.tty = tty
         self.no_color = no_color
@@ -182,10 +182,10 @@ class Effects:
         import cm_colors.core.visualiser as V
 
         root = self.root
-        for d in ("cwd", "home", "tmp"):
+        for d in ("cwd", "home", "tmp", self.cwd_rel):
             os.makedirs(os.path.join(root, d), exist_ok=True)
         self.old_cwd = os.getcwd()
-        os.chdir(os.path.join(root, "cwd"))
+        os.chdir(os.path.join(root, self.cwd_rel))
         seams.set_terminal_env(root, no_color=self.no_color)
         self.before = seams.snapshot(root)
         self.out, self.err = seams.Rec(self.tty, "<stdout>"), seams.Rec(self.tty, "<stderr>")
